@@ -13,6 +13,7 @@ from . import common
 PID = "C01"
 CLS = "Hypergraph"
 ANCHORS = ("xgi/core/hypergraph.py", "xgi/utils/utilities.py", "xgi/algorithms/connected.py")
+TECHNIQUE = "runtime monitoring: structural invariant evaluated at the quiescent point after every op of seeded edit histories (preservation form)"
 RULE = (
     "case = one seeded edit history (<= 25 ops from the full Hypergraph mutator alphabet incl. in-place library helpers) "
     "from a constructible start state; one evaluation = the invariant checked after one op (returned or raised). "
